@@ -171,15 +171,15 @@ func (nb *nativeBuilder) binary(inCmd, race bool) (string, error) {
 	if b, ok := nb.bins[key]; ok {
 		return b, nil
 	}
-	pkgDir, pkgName, glob, prefix := "zz_vh", "zzvh", "/verif/harness/*.go", ""
+	pkgDir, pkgName, glob, prefix := "zz_vh", "zzvh", harnessBase()+"/harness/*.go", ""
 	if inCmd {
-		pkgDir, pkgName, glob, prefix = "cmd", "cmd", "/verif/harness_cmd/*.go", "zz_vh_"
+		pkgDir, pkgName, glob, prefix = "cmd", "cmd", harnessBase()+"/harness_cmd/*.go", "zz_vh_"
 	}
 	files, _ := filepath.Glob(glob)
 	ov := map[string]string{}
 	var names []string
 	if inCmd {
-		if b, err := os.ReadFile("/verif/harness/sx_prelude.go"); err == nil {
+		if b, err := os.ReadFile(harnessBase()+"/harness/sx_prelude.go"); err == nil {
 			gen := filepath.Join(nb.dir, "sx_prelude_cmd.go")
 			if err := os.WriteFile(gen, []byte(strings.Replace(string(b), "package zzvh", "package cmd", 1)), 0o644); err != nil {
 				return "", err
